@@ -106,6 +106,16 @@ def run(tier, seed):
             walk(c["prog"])
             v["ins"] = [x if i in pub_ix else x + 1 for i, x in enumerate(c["ins"])]
             cases.append(v)
+        # deterministic cases: coefficients and values whose integer magnitude reaches or exceeds the field size, and negative ones
+        # (scaling by p+5 / -p-2, chained constant divisions: products of field inverses), on small valid inputs
+        for extra in (
+            [["input", 0, "priv", 1], ["input", 1, "pub", 2], ["const", 2, ["int", p + 5]], ["bin", 3, "mul", 0, 2], ["const", 4, ["int", -p - 2]], ["bin", 5, "mul", 1, 4],
+             ["bin", 6, "mul", 3, 5], ["bin", 7, "add", 6, 3], ["meth", 8, "val", None, 7, []]],
+            [["input", 0, "priv", 1], ["input", 1, "priv", 2], ["const", 2, ["int", 3]], ["bin", 3, "truediv", 0, 2], ["const", 4, ["int", 5]], ["bin", 5, "truediv", 3, 4],
+             ["bin", 6, "mul", 5, 1], ["const", 7, ["int", -7]], ["bin", 8, "truediv", 1, 7], ["bin", 9, "mul", 8, 5], ["meth", 10, "val", None, 9, []]],
+            [["input", 0, "priv", 1], ["input", 1, "pub", 2], ["bin", 2, "mul", 0, 0], ["bin", 3, "mul", 2, 2], ["bin", 4, "mul", 3, 3], ["bin", 5, "mul", 4, 1], ["un", 6, "neg", 5], ["bin", 7, "mul", 6, 6]]):
+            for ins_ in ([1, 30, 105, 1], [1, 2 ** 130 + 1, -(2 ** 129), 1]):
+                cases.append(dict(cfg=dict(p=p, n=8, res=2, ign=1 if abs(ins_[1]) > 1000 else 0), prog=extra, ins=ins_))
         for i, c in enumerate(cases): c.update(id=i, prove=1, full=1)
         try:
             recs = progs.run_impl_cases(cases, full=True, real_backend=name)
